@@ -18,6 +18,30 @@ Qed.
 Lemma kind_of_not_bs kn : kn <> 0 -> kind_of kn <> KBlockstore.
 Proof. intros H. unfold kind_of. replace (kn =? 0) with false by lia. destruct (kn =? 3); discriminate. Qed.
 
+Lemma kind_of_bs kn : kind_of kn = KBlockstore <-> kn = 0.
+Proof.
+  unfold kind_of. destruct (kn =? 0) eqn:E0; [split; [lia|reflexivity]|].
+  destruct (kn =? 3); split; intros H; try discriminate; lia.
+Qed.
+
+Lemma roots_ok_not_sticky roots : roots_ok roots ->
+  match roots with [[]] => true | _ => false end = false.
+Proof.
+  intros [Hall _]. destruct roots as [|[|b r] [|r2 t]]; try reflexivity.
+  inversion Hall as [|? ? [(p & Hp & He) _] _]; subst.
+  pose proof (cid_enc_nonempty p Hp) as Hl. rewrite <- He in Hl. cbn in Hl. lia.
+Qed.
+
+Lemma dev_try_truncate_ok dv n dv' : dev_try_truncate dv n = (dv', true) ->
+  d_file dv' = truncate_to (d_file dv) n.
+Proof.
+  unfold dev_try_truncate. destruct (d_faults dv) as [|[k|] rest]; intros H; inversion H; reflexivity.
+Qed.
+Lemma dev_try_truncate_fail dv n dv' : dev_try_truncate dv n = (dv', false) -> d_file dv' = d_file dv.
+Proof.
+  unfold dev_try_truncate. destruct (d_faults dv) as [|[k|] rest]; intros H; inversion H; reflexivity.
+Qed.
+
 Lemma records_from_length st : Forall stored_ok st -> forall pos, length (records_from pos st) = length st.
 Proof.
   induction 1 as [|[c d] t [(p & Hp) _] _ IH]; intros pos; [reflexivity|].
@@ -76,11 +100,12 @@ Section Session.
     cl_pos : ws_pos s = blen (payload nilroots roots st);
     cl_idx : ws_idx s = idx_of start st;
     cl_st : Forall stored_ok st;
-    cl_sticky : kn <> 0 -> ws_finalized s = false
+    cl_sticky : kn <> 0 -> ws_finalized s = false;
+    cl_bs : bs_sticky s = false
   }.
 
   Definition Dead (s : wstate) : Prop :=
-    if kn =? 0 then w_v1 o = false /\ ws_finalized s = true
+    if kn =? 0 then (w_v1 o = false /\ ws_finalized s = true) \/ bs_sticky s = true
     else (w_v1 o = false /\ ws_closed s = true) \/ ws_finalized s = true.
 
   Record FInv (s : wstate) (st : list blk) : Prop := mkFInv {
@@ -121,7 +146,8 @@ Section Session.
       { constructor; cbn [ws_pos ws_idx ws_finalized]; try reflexivity; try constructor.
         - unfold ws_file. cbn [ws_dev]. unfold pre_of. rewrite Ev1. unfold payload.
           cbn [sections map concat app]. rewrite app_nil_r. exact Hw.
-        - unfold payload. cbn [sections map concat]. rewrite app_nil_r. cbn [d_file] in Ha. rewrite blen_nil in Ha. fold hb. lia. }
+        - unfold payload. cbn [sections map concat]. rewrite app_nil_r. cbn [d_file] in Ha. rewrite blen_nil in Ha. fold hb. lia.
+        - unfold bs_sticky. cbn [ws_roots]. apply roots_ok_not_sticky. apply Hhdr. }
       split; [|split; [exact HC|split; reflexivity]].
       constructor; try reflexivity. right. exact HC.
     - destruct (dev_write (mkdev [] [] faults) 0 pragma) as [[d1 n1] ok1] eqn:E1.
@@ -141,7 +167,8 @@ Section Session.
         - unfold ws_file. cbn [ws_dev]. unfold pre_of. rewrite Ev1. unfold payload.
           cbn [sections map concat]. rewrite app_nil_r. rewrite Hw, Hbase, <- app_assoc.
           replace (51 + w_dpad o - 11) with (40 + w_dpad o) by lia. reflexivity.
-        - unfold payload. cbn [sections map concat]. rewrite app_nil_r. fold hb. lia. }
+        - unfold payload. cbn [sections map concat]. rewrite app_nil_r. fold hb. lia.
+        - unfold bs_sticky. cbn [ws_roots]. apply roots_ok_not_sticky. apply Hhdr. }
       split; [|split; [exact HC|split; reflexivity]].
       constructor; try reflexivity. right. exact HC.
   Qed.
@@ -156,7 +183,7 @@ Section Session.
     ((out = ONil /\ Clean s' (spec_put o start st c d) /\ ws_finalized s' = ws_finalized s) \/
      (is_err out = true /\ ws_idx s' = ws_idx s /\
       ((Clean s' st /\ ws_file s' = ws_file s /\ ws_finalized s' = ws_finalized s) \/
-       (kn = 3 /\ ws_finalized s' = true)))).
+       sticky kn s' = true))).
   Proof.
     intros HC Ho Hk Hp Hsm. unfold put_one. rewrite Ho.
     assert (Hspec : spec_put o start st c d
@@ -183,6 +210,7 @@ Section Session.
       + rewrite (idx_of_snoc _ _ _ _ _ Hp), (cl_idx _ _ HC), (cl_pos _ _ HC), blen_payload. reflexivity.
       + apply Forall_app. split; [apply HC|]. constructor; [|constructor]. split; [exists p; exact Hp|exact Hsm].
       + apply HC.
+      + apply (cl_bs _ _ HC).
     - (* a write call failed: w is the part of the section that got out *)
       destruct (abs =? data_base o + ws_pos s) eqn:Eabs.
       + (* nothing got out *)
@@ -201,41 +229,55 @@ Section Session.
         * apply (cl_idx _ _ HC).
         * apply (cl_st _ _ HC).
         * apply (cl_sticky _ _ HC).
-      + rewrite Hk. destruct k as [|[|]] eqn:Ek.
-        * (* blockstore: rewind and truncate *)
-          intros H; inversion H; subst s' out. clear H.
-          cbn [set_dev ws_opts ws_kind ws_closed ws_finalized ws_idx].
-          assert (Hfile : ws_file (set_dev s (dev_truncate dv (data_base o + ws_pos s)) (ws_pos s)) = ws_file s).
-          { unfold ws_file. cbn [set_dev ws_dev dev_truncate d_file]. rewrite Hw, Hend. apply truncate_to_app. }
-          split; [exact Ho|]. split; [exact Hk|]. split; [reflexivity|].
-          right. split; [reflexivity|]. split; [reflexivity|]. left.
-          split; [|split; [exact Hfile|reflexivity]].
-          constructor; cbn [set_dev ws_idx ws_pos ws_finalized].
-          -- rewrite Hfile. apply (cl_file _ _ HC).
-          -- apply (cl_pos _ _ HC).
-          -- apply (cl_idx _ _ HC).
-          -- apply (cl_st _ _ HC).
-          -- apply (cl_sticky _ _ HC).
-        * (* storage on a WriterAt: rewind and truncate *)
-          intros H; inversion H; subst s' out. clear H.
-          cbn [set_dev ws_opts ws_kind ws_closed ws_finalized ws_idx].
-          assert (Hfile : ws_file (set_dev s (dev_truncate dv (data_base o + ws_pos s)) (ws_pos s)) = ws_file s).
-          { unfold ws_file. cbn [set_dev ws_dev dev_truncate d_file]. rewrite Hw, Hend. apply truncate_to_app. }
-          split; [exact Ho|]. split; [exact Hk|]. split; [reflexivity|].
-          right. split; [reflexivity|]. split; [reflexivity|]. left.
-          split; [|split; [exact Hfile|reflexivity]].
-          constructor; cbn [set_dev ws_idx ws_pos ws_finalized].
-          -- rewrite Hfile. apply (cl_file _ _ HC).
-          -- apply (cl_pos _ _ HC).
-          -- apply (cl_idx _ _ HC).
-          -- apply (cl_st _ _ HC).
-          -- apply (cl_sticky _ _ HC).
+        * apply (cl_bs _ _ HC).
+      + (* part of the section got out *)
+        assert (Hseek : forall dv', dev_try_truncate dv (data_base o + ws_pos s) = (dv', true) ->
+                  let s2 := set_dev s dv' (ws_pos s) in
+                  Clean s2 st /\ ws_file s2 = ws_file s).
+        { intros dv' Et s2.
+          assert (Hfile : ws_file s2 = ws_file s).
+          { unfold ws_file, s2. cbn [set_dev ws_dev]. rewrite (dev_try_truncate_ok _ _ _ Et), Hw, Hend.
+            apply truncate_to_app. }
+          split; [|exact Hfile].
+          constructor; unfold s2; cbn [set_dev ws_idx ws_pos ws_finalized].
+          - fold s2. rewrite Hfile. apply (cl_file _ _ HC).
+          - apply (cl_pos _ _ HC).
+          - apply (cl_idx _ _ HC).
+          - apply (cl_st _ _ HC).
+          - apply (cl_sticky _ _ HC).
+          - apply (cl_bs _ _ HC). }
+        rewrite Hk. destruct k as [|[|]] eqn:Ek.
+        * (* blockstore: rewind and truncate, or the sticky write error *)
+          assert (Hkn : kn = 0) by (apply kind_of_bs; exact Ek).
+          destruct (dev_try_truncate dv (data_base o + ws_pos s)) as [dv' tok] eqn:Et. destruct tok.
+          -- intros H; inversion H; subst s' out. clear H. destruct (Hseek dv' eq_refl) as [HC2 Hf2].
+             cbn [set_dev ws_opts ws_kind ws_closed ws_finalized ws_idx].
+             split; [exact Ho|]. split; [exact Hk|]. split; [reflexivity|].
+             right. split; [reflexivity|]. split; [reflexivity|]. left. split; [exact HC2|]. split; [exact Hf2|reflexivity].
+          -- intros H; inversion H; subst s' out. clear H.
+             cbn [set_roots set_dev ws_opts ws_kind ws_closed ws_finalized ws_idx].
+             split; [exact Ho|]. split; [exact Hk|]. split; [reflexivity|].
+             right. split; [reflexivity|]. split; [reflexivity|]. right.
+             unfold sticky. rewrite Hkn. reflexivity.
+        * (* storage on a WriterAt: the same; the sticky error lives in ws_finalized *)
+          assert (Hkn : kn <> 0) by (intros E; apply kind_of_bs in E; pose proof Ek as Ek'; unfold k in Ek'; congruence).
+          destruct (dev_try_truncate dv (data_base o + ws_pos s)) as [dv' tok] eqn:Et. destruct tok.
+          -- intros H; inversion H; subst s' out. clear H. destruct (Hseek dv' eq_refl) as [HC2 Hf2].
+             cbn [set_dev ws_opts ws_kind ws_closed ws_finalized ws_idx].
+             split; [exact Ho|]. split; [exact Hk|]. split; [reflexivity|].
+             right. split; [reflexivity|]. split; [reflexivity|]. left. split; [exact HC2|]. split; [exact Hf2|reflexivity].
+          -- intros H; inversion H; subst s' out. clear H.
+             cbn [set_flags set_dev ws_opts ws_kind ws_closed ws_finalized ws_idx].
+             split; [exact Ho|]. split; [exact Hk|]. split; [reflexivity|].
+             right. split; [reflexivity|]. split; [reflexivity|]. right.
+             unfold sticky. replace (kn =? 0) with false by lia. reflexivity.
         * (* plain io.Writer: sticky write error *)
+          assert (Hkn : kn <> 0) by (intros E; apply kind_of_bs in E; pose proof Ek as Ek'; unfold k in Ek'; congruence).
           intros H; inversion H; subst s' out. clear H.
           cbn [set_flags set_dev ws_opts ws_kind ws_closed ws_finalized ws_idx].
           split; [exact Ho|]. split; [exact Hk|]. split; [reflexivity|].
-          right. split; [reflexivity|]. split; [reflexivity|]. right. split; [|reflexivity].
-          apply kind_of_stream. exact Ek.
+          right. split; [reflexivity|]. split; [reflexivity|]. right.
+          unfold sticky. replace (kn =? 0) with false by lia. reflexivity.
   Qed.
 
   (* ---- flags ---------------------------------------------------------------------------------------- *)
@@ -330,24 +372,26 @@ Section Session.
     kn = 0 -> Clean s st -> ws_opts s = o -> ws_kind s = k -> Forall blk_small blks ->
     put_many_loop s blks = (s', out) ->
     ws_opts s' = o /\ ws_kind s' = k /\ ws_closed s' = ws_closed s /\ ws_finalized s' = ws_finalized s /\
-    exists st', Clean s' st' /\
+    exists st', length (ws_idx s') = length st' /\ (Clean s' st' \/ sticky kn s' = true) /\
       ((out = ONil /\ st' = spec_put_all o start st blks) \/
        (is_err out = true /\
         st' = spec_put_upto o start st blks (N.of_nat (length st') - N.of_nat (length st)))).
   Proof.
     induction blks as [|[c d] t IH]; intros s st s' out Hkn HC Ho Hk Hsm H; cbn [put_many_loop] in H.
-    - inversion H; subst. repeat split; try assumption; try reflexivity. exists st. split; [exact HC|]. left. split; reflexivity.
+    - inversion H; subst. repeat split; try assumption; try reflexivity. exists st.
+      split; [apply clean_len; exact HC|]. split; [left; exact HC|]. left. split; reflexivity.
     - inversion Hsm as [|? ? Hsm1 Hsm2]; subst.
       destruct (cid_parse c) as [p|] eqn:Hp.
-      2:{ inversion H; subst. repeat split; try assumption; try reflexivity. exists st. split; [exact HC|].
+      2:{ inversion H; subst. repeat split; try assumption; try reflexivity. exists st.
+          split; [apply clean_len; exact HC|]. split; [left; exact HC|].
           right. split; [reflexivity|]. rewrite N.sub_diag. symmetry. apply spec_put_upto_0. }
       destruct (put_one s c d p) as [s1 r1] eqn:Ep.
       destruct (put_one_clean s st c d p s1 r1 HC Ho Hk Hp Hsm1 Ep) as (Ho1 & Hk1 & Hc1 & Hcase).
       destruct Hcase as [(-> & HC1 & Hf1) | (Herr & Hidx & Hrest)].
       + (* stored or skipped: go on *)
-        destruct (IH s1 _ s' out Hkn HC1 Ho1 Hk1 Hsm2 H) as (Ho' & Hk' & Hc' & Hf' & st' & HC' & Hres).
+        destruct (IH s1 _ s' out Hkn HC1 Ho1 Hk1 Hsm2 H) as (Ho' & Hk' & Hc' & Hf' & st' & Hlen' & HC' & Hres).
         split; [exact Ho'|]. split; [exact Hk'|]. split; [congruence|]. split; [congruence|].
-        exists st'. split; [exact HC'|].
+        exists st'. split; [exact Hlen'|]. split; [exact HC'|].
         destruct Hres as [(-> & ->) | (He & Hst')]; [left; split; reflexivity|].
         right. split; [exact He|].
         set (st1 := spec_put o start st c d) in *.
@@ -367,10 +411,19 @@ Section Session.
           exact Hst'.
       + (* refused or failed: the loop stops here *)
         destruct r1; try discriminate. inversion H; subst s' out. clear H.
-        destruct Hrest as [(HC1 & _ & Hf1) | (Hkn3 & _)]; [|lia].
-        split; [exact Ho1|]. split; [exact Hk1|]. split; [exact Hc1|]. split; [exact Hf1|].
-        exists st. split; [exact HC1|]. right. split; [reflexivity|].
-        rewrite N.sub_diag. symmetry. apply spec_put_upto_0.
+        assert (Hfin1 : ws_finalized s1 = ws_finalized s).
+        { destruct Hrest as [(_ & _ & Hf1) | Hst]; [exact Hf1|].
+          (* the blockstore's sticky error does not touch the finalized flag *)
+          revert Ep. unfold put_one. rewrite Ho.
+          destruct (should_put o (ws_idx s) c p) as [[|]|e0]; try (intros E; inversion E; reflexivity).
+          destruct (write_chunks _ _ _) as [[dv abs] ok]. destruct ok; [intros E; inversion E; reflexivity|].
+          destruct (abs =? _); [intros E; inversion E; reflexivity|].
+          rewrite Hk. replace k with KBlockstore by (symmetry; apply kind_of_bs; exact Hkn).
+          destruct (dev_try_truncate _ _) as [dv' [|]]; intros E; inversion E; reflexivity. }
+        split; [exact Ho1|]. split; [exact Hk1|]. split; [exact Hc1|]. split; [exact Hfin1|].
+        exists st. split; [rewrite Hidx; apply clean_len; exact HC|].
+        split; [destruct Hrest as [(HC1 & _) | Hst]; [left; exact HC1|right; exact Hst]|].
+        right. split; [reflexivity|]. rewrite N.sub_diag. symmetry. apply spec_put_upto_0.
   Qed.
 
   (* ---- one operation -------------------------------------------------------------------------------------- *)
@@ -381,6 +434,13 @@ Section Session.
 
   Lemma finv_of_clean s st : ws_opts s = o -> ws_kind s = k -> Clean s st -> FInv s st.
   Proof. intros Ho Hk HC. constructor; try assumption; [apply clean_len; exact HC|right; exact HC]. Qed.
+
+  Lemma finv_of_sticky s st : ws_opts s = o -> ws_kind s = k -> length (ws_idx s) = length st ->
+    sticky kn s = true -> FInv s st.
+  Proof.
+    intros Ho Hk Hl Hs. constructor; try assumption. left. unfold Dead, sticky in *.
+    destruct (kn =? 0); right; exact Hs.
+  Qed.
 
   Lemma store_finalize_out s s' out : store_finalize s = (s', out) -> out = ONil \/ is_err out = true.
   Proof.
@@ -405,70 +465,82 @@ Section Session.
   Section Blockstore.
     Hypothesis Hkn : kn = 0.
 
-    Lemma dead_bs s : Dead s <-> w_v1 o = false /\ ws_finalized s = true.
+    Lemma dead_bs s : Dead s <-> (w_v1 o = false /\ ws_finalized s = true) \/ bs_sticky s = true.
     Proof. unfold Dead. rewrite Hkn. reflexivity. Qed.
 
     Lemma finv_flags_bs s st a b : FInv s st -> (ws_finalized s = true -> b = true) -> FInv (set_flags s a b) st.
     Proof.
       intros [Ho Hk Hl Hs] Hb. constructor; try assumption. destruct Hs as [Hd|HC].
-      - left. apply dead_bs in Hd. apply dead_bs. cbn [set_flags ws_finalized]. destruct Hd as [Hv Hf]. split; [exact Hv|apply Hb; exact Hf].
+      - left. apply dead_bs in Hd. apply dead_bs. cbn [set_flags ws_finalized].
+        destruct Hd as [[Hv Hf]|Hd]; [left; split; [exact Hv|apply Hb; exact Hf]|right; exact Hd].
       - right. apply clean_set_flags; [exact HC|]. intros Hne. congruence.
     Qed.
 
-    Lemma clean_of_finv_bs s st : FInv s st -> ws_finalized s = false -> Clean s st.
-    Proof. intros [_ _ _ [Hd|HC]] Hf; [|exact HC]. apply dead_bs in Hd. destruct Hd as [_ Hd]. congruence. Qed.
+    Lemma clean_of_finv_bs s st : FInv s st -> ws_finalized s = false -> bs_sticky s = false -> Clean s st.
+    Proof.
+      intros [_ _ _ [Hd|HC]] Hf Hs; [|exact HC]. apply dead_bs in Hd. destruct Hd as [[_ Hd]|Hd]; congruence.
+    Qed.
 
     Lemma put_bs s st c d s' out : FInv s st -> blk_small (c, d) ->
-      bs_put_many s [(c, d)] = (s', out) ->
+      fbs_put_many s [(c, d)] = (s', out) ->
       FInv s' (if is_nil out then spec_put o start st c d else st).
     Proof.
-      intros HI Hsm. unfold bs_put_many.
+      intros HI Hsm. unfold fbs_put_many, bs_put_many.
       destruct (ws_closed s); [intros H; inversion H; subst; exact HI|].
-      destruct (ws_finalized s) eqn:Ef; [intros H; inversion H; subst; exact HI|].
-      pose proof (clean_of_finv_bs _ _ HI Ef) as HC. cbn [put_many_loop].
+      destruct (ws_finalized s) eqn:Ef; [intros H; inversion H; subst; exact HI|]. cbn [orb].
+      destruct (bs_sticky s) eqn:Es; [intros H; inversion H; subst; exact HI|].
+      pose proof (clean_of_finv_bs _ _ HI Ef Es) as HC. cbn [put_many_loop].
       destruct (cid_parse c) as [p|] eqn:Hp; [|intros H; inversion H; subst; exact HI].
       destruct (put_one s c d p) as [s1 r1] eqn:Ep.
       destruct (put_one_clean s st c d p s1 r1 HC (fi_opts _ _ HI) (fi_kind _ _ HI) Hp Hsm Ep) as (Ho1 & Hk1 & _ & Hcase).
       destruct Hcase as [(-> & HC1 & _) | (Herr & Hidx & Hrest)].
       - intros H; inversion H; subst. cbn [is_nil]. apply finv_of_clean; assumption.
       - destruct r1; try discriminate. intros H; inversion H; subst. cbn [is_nil].
-        destruct Hrest as [(HC1 & _) | (Hkn3 & _)]; [|lia]. apply finv_of_clean; assumption.
+        destruct Hrest as [(HC1 & _) | Hst]; [apply finv_of_clean; assumption|].
+        apply finv_of_sticky; try assumption. rewrite Hidx. apply HI.
     Qed.
 
     Lemma put_many_bs s st bs s' out : FInv s st -> Forall blk_small bs ->
-      bs_put_many s bs = (s', out) ->
+      fbs_put_many s bs = (s', out) ->
       FInv s' (ack_step o start st (N.of_nat (length st)) (FPutMany bs) (obs_of (s', out))).
     Proof.
-      intros HI Hsm. unfold bs_put_many.
+      intros HI Hsm. unfold fbs_put_many, bs_put_many.
       destruct (ws_closed s); [intros H; inversion H; subst; rewrite ack_many_same by apply HI; exact HI|].
       destruct (ws_finalized s) eqn:Ef; [intros H; inversion H; subst; rewrite ack_many_same by apply HI; exact HI|].
-      pose proof (clean_of_finv_bs _ _ HI Ef) as HC. intros H.
-      destruct (loop_clean bs s st s' out Hkn HC (fi_opts _ _ HI) (fi_kind _ _ HI) Hsm H) as (Ho' & Hk' & _ & _ & st' & HC' & Hres).
+      cbn [orb].
+      destruct (bs_sticky s) eqn:Es; [intros H; inversion H; subst; rewrite ack_many_same by apply HI; exact HI|].
+      pose proof (clean_of_finv_bs _ _ HI Ef Es) as HC. intros H.
+      destruct (loop_clean bs s st s' out Hkn HC (fi_opts _ _ HI) (fi_kind _ _ HI) Hsm H)
+        as (Ho' & Hk' & _ & _ & st' & Hlen' & HC' & Hres).
+      assert (HI' : FInv s' st').
+      { destruct HC' as [HC'|Hst]; [apply finv_of_clean; assumption|apply finv_of_sticky; assumption]. }
       unfold ack_step, obs_of. cbn [fst snd].
       destruct Hres as [(-> & ->) | (He & Hst')].
-      - cbn [is_nil]. apply finv_of_clean; assumption.
-      - destruct out; try discriminate. cbn [is_nil]. rewrite (clean_len _ _ HC'), <- Hst'. apply finv_of_clean; assumption.
+      - cbn [is_nil]. exact HI'.
+      - destruct out; try discriminate. cbn [is_nil]. rewrite Hlen', <- Hst'. exact HI'.
     Qed.
 
-    Lemma finalize_ro_bs s st s1 r1 : FInv s st -> bs_finalize_ro s = (s1, r1) ->
+    Lemma finalize_ro_bs s st s1 r1 : FInv s st -> fbs_finalize_ro s = (s1, r1) ->
       FInv s1 st /\ (r1 = ONil \/ is_err r1 = true) /\
       (r1 = ONil -> 51 + w_dpad o + w_ipad o + blen (payload nilroots roots st) < two63 ->
        wf_final (ws_file s1) = Some (roots, st)).
     Proof.
-      intros HI. unfold bs_finalize_ro. rewrite (fi_opts _ _ HI).
+      intros HI. unfold fbs_finalize_ro.
+      destruct (bs_sticky s) eqn:Es; [intros H; inversion H; subst; split; [exact HI|split; [right; reflexivity|discriminate]]|].
+      unfold bs_finalize_ro. rewrite (fi_opts _ _ HI).
       destruct (w_v1 o) eqn:Ev1.
       - intros H; inversion H; subst. split; [apply finv_flags_bs; [exact HI|reflexivity]|]. split; [left; reflexivity|].
-        intros _ _. destruct (fi_state _ _ HI) as [Hd|HC]; [apply dead_bs in Hd; destruct Hd; congruence|].
+        intros _ _. destruct (fi_state _ _ HI) as [Hd|HC]; [apply dead_bs in Hd; destruct Hd as [[Hd _]|Hd]; congruence|].
         change (ws_file (set_flags s (ws_closed s) true)) with (ws_file s). apply clean_wf_v1; assumption.
       - destruct (ws_closed s); [intros H; inversion H; subst; split; [exact HI|split; [right; reflexivity|discriminate]]|].
         destruct (ws_finalized s) eqn:Ef; [intros H; inversion H; subst; split; [exact HI|split; [right; reflexivity|discriminate]]|].
-        pose proof (clean_of_finv_bs _ _ HI Ef) as HC. intros H.
+        pose proof (clean_of_finv_bs _ _ HI Ef Es) as HC. intros H.
         destruct (store_finalize_clean (set_flags s false true) st s1 r1 (cl_file _ _ HC) (cl_pos _ _ HC) (cl_idx _ _ HC)
                     (cl_st _ _ HC) (fi_opts _ _ HI) Ev1 H) as (Ho1 & Hk1 & Hi1 & Hc1 & Hf1 & Hwf).
         cbn [set_flags ws_kind ws_idx ws_closed ws_finalized] in *.
         split; [|split; [exact (store_finalize_out _ _ _ H)|exact Hwf]].
         constructor; [exact Ho1|rewrite Hk1; apply HI|rewrite Hi1; apply HI|].
-        left. apply dead_bs. split; [exact Ev1|exact Hf1].
+        left. apply dead_bs. left. split; [exact Ev1|exact Hf1].
     Qed.
 
     Lemma close_bs s st s2 r2 : FInv s st -> bs_close s = (s2, r2) -> FInv s2 st /\ ws_file s2 = ws_file s.
@@ -493,7 +565,7 @@ Section Session.
       - (* PutMany *)
         split; [|intros Hf; discriminate]. exact (put_many_bs _ _ _ _ _ HI Hsm H).
       - (* Finalize = FinalizeReadOnly; Close *)
-        unfold bs_finalize in H. destruct (bs_finalize_ro s) as [s1 r1] eqn:E1. destruct (bs_close s1) as [s2 r2] eqn:E2.
+        unfold fbs_finalize in H. destruct (fbs_finalize_ro s) as [s1 r1] eqn:E1. destruct (bs_close s1) as [s2 r2] eqn:E2.
         inversion H; subst s' out. clear H.
         destruct (finalize_ro_bs _ _ _ _ HI E1) as (HI1 & Hr1 & Hwf). destruct (close_bs _ _ _ _ HI1 E2) as (HI2 & Hfile).
         cbn [ack_step]. split; [exact HI2|]. intros _ Hout Hb. rewrite Hfile. apply Hwf; [|exact Hb].
@@ -533,8 +605,8 @@ Section Session.
       destruct Hcase as [(-> & HC1 & _) | (Herr & Hidx & Hrest)].
       - cbn [is_nil]. apply finv_of_clean; assumption.
       - destruct out; try discriminate. cbn [is_nil].
-        destruct Hrest as [(HC1 & _) | (_ & Hst)]; [apply finv_of_clean; assumption|].
-        constructor; [exact Ho1|exact Hk1|rewrite Hidx; apply HI|]. left. apply dead_st. right. exact Hst.
+        destruct Hrest as [(HC1 & _) | Hst]; [apply finv_of_clean; assumption|].
+        apply finv_of_sticky; try assumption. rewrite Hidx. apply HI.
     Qed.
 
     Lemma finalize_st s st s1 r1 : FInv s st -> st_finalize s = (s1, r1) ->
@@ -631,13 +703,14 @@ Section Session.
   (* ---- a Put that returns an error changed nothing (or made the stream store refuse everything) ------------- *)
   Lemma put_err_unchanged s st c d s' out : FInv s st -> blk_small (c, d) ->
     fstep hdrdec kn s (FPut c d) = (s', out) -> is_err out = true ->
-    ws_idx s' = ws_idx s /\ (ws_file s' = ws_file s \/ (kn = 3 /\ ws_finalized s' = true)).
+    ws_idx s' = ws_idx s /\ (ws_file s' = ws_file s \/ sticky kn s' = true).
   Proof.
     intros HI Hsm. unfold fstep. destruct (kn =? 0) eqn:Ekn.
-    - assert (Hkn : kn = 0) by lia. unfold bs_put_many.
+    - assert (Hkn : kn = 0) by lia. unfold fbs_put_many, bs_put_many.
       destruct (ws_closed s); [intros H; inversion H; subst; split; [reflexivity|left; reflexivity]|].
       destruct (ws_finalized s) eqn:Ef; [intros H; inversion H; subst; split; [reflexivity|left; reflexivity]|].
-      pose proof (clean_of_finv_bs Hkn _ _ HI Ef) as HC. cbn [put_many_loop].
+      cbn [orb]. destruct (bs_sticky s) eqn:Es; [intros H; inversion H; subst; split; [reflexivity|left; reflexivity]|].
+      pose proof (clean_of_finv_bs Hkn _ _ HI Ef Es) as HC. cbn [put_many_loop].
       destruct (cid_parse c) as [p|] eqn:Hp; [|intros H; inversion H; subst; split; [reflexivity|left; reflexivity]].
       destruct (put_one s c d p) as [s1 r1] eqn:Ep.
       destruct (put_one_clean s st c d p s1 r1 HC (fi_opts _ _ HI) (fi_kind _ _ HI) Hp Hsm Ep) as (_ & _ & _ & Hcase).
@@ -656,12 +729,12 @@ Section Session.
   Qed.
 
   (* in CARv1 mode the file is a complete archive of the acknowledged blocks at every moment *)
-  Lemma finv_v1_wf s st : FInv s st -> w_v1 o = true -> (kn <> 0 -> ws_finalized s = false) ->
+  Lemma finv_v1_wf s st : FInv s st -> w_v1 o = true -> sticky kn s = false ->
     wf_final (ws_file s) = Some (roots, st).
   Proof.
     intros HI Hv1 Hns. destruct (fi_state _ _ HI) as [Hd|HC]; [|apply clean_wf_v1; assumption].
-    exfalso. unfold Dead in Hd. destruct (kn =? 0) eqn:E.
-    - destruct Hd; congruence.
-    - destruct Hd as [[Hd _]|Hd]; [congruence|]. rewrite Hns in Hd by lia. discriminate.
+    exfalso. unfold Dead, sticky in *. destruct (kn =? 0) eqn:E.
+    - destruct Hd as [[Hd _]|Hd]; congruence.
+    - destruct Hd as [[Hd _]|Hd]; congruence.
   Qed.
 End Session.
